@@ -343,3 +343,45 @@ func genPara(r *rng.R, o genOpts, glyph int) para {
 	}
 	return para{toks: g.toks}
 }
+
+// genLastChildNest: text, then inline boxes nested as LAST child of each other (depth 2..3), every one
+// with a non-zero end edge (and no start edge), each holding words separated by spaces:
+//
+//	aaa <span R1>bb cc <span R2>dd ee</span></span>
+func genLastChildNest(r *rng.R, g int) para {
+	var toks []tok
+	words := func(n int, leadingSpace bool) {
+		for i := 0; i < n; i++ {
+			if i > 0 || leadingSpace {
+				toks = append(toks, tok{k: tSpace, html: " "})
+			}
+			k := r.Range(1, 4)
+			toks = append(toks, tok{k: tWord, n: k, html: strings.Repeat("x", k)})
+		}
+	}
+	words(r.Range(0, 2), false)
+	depth := r.Range(2, 3)
+	var closes []tok
+	for d := 0; d < depth; d++ {
+		if len(toks) > 0 && toks[len(toks)-1].k == tWord && r.P(2, 3) {
+			toks = append(toks, tok{k: tSpace, html: " "})
+		}
+		e := rng.Pick(r, g/2, g, g+3, g/2+1)
+		kind := rng.Pick(r, "padding-right", "margin-right", "border-right")
+		st := fmt.Sprintf("%s:%dpx", kind, e)
+		if kind == "border-right" {
+			st = fmt.Sprintf("border-right:%dpx solid", e)
+		}
+		toks = append(toks, tok{k: tOpen, n: 0, html: `<span style="` + st + `">`})
+		closes = append(closes, tok{k: tClose, n: e, html: "</span>"})
+		n := r.Range(1, 3)
+		if d == depth-1 {
+			n = r.Range(2, 3)
+		}
+		words(n, false)
+	}
+	for i := len(closes) - 1; i >= 0; i-- {
+		toks = append(toks, closes[i])
+	}
+	return para{toks: toks}
+}
